@@ -184,6 +184,11 @@ def gen_pairs(r, n, url_cases):
     for b in BASES[:12]:
         for l in LINKS:
             add(b, l)
+    # thousands of repetitions of a short prefix: any helper that peels prefixes off recursively runs out of stack (RecursionError is
+    # not a value error); a handful only - long literals are expensive on the Coq side
+    for tok, k, tail in (('feed:', 3000, 'http://example.net/rss.xml'), ('view-source:', 1500, 'x'), ('x:', 4000, ''),
+                         ('../', 4000, 'y'), ('//', 2500, 'h/x'), ('javascript:', 1200, 'void(0)'), ('HTTP:', 3000, '//h/')):
+        add(r.choice(BASES[:6]), tok * k + tail)
     pool = [un6(c['url']) for c in url_cases[:3000]]
     while len(pairs) < n:
         x = r.random()
